@@ -9,7 +9,7 @@ DECIDES = ('Decides the gates in front of every transport send (size, flow contr
            'agreement of the two transports on the function slots, and the polled descriptor; end-to-end order and content rest on C01 '
            'and kernel datagram semantics and are not decided.')
 RULES = {
-    'R1': 'qb_ipcc_send / qb_ipcc_sendv / qb_ipcs_event_send: the message length (sendv: the total of all iovec lengths) is compared with the channel max_msg_size before the transport send; too big returns -EMSGSIZE without sending',
+    'R1': 'qb_ipcc_send / qb_ipcc_sendv / qb_ipcs_event_send / qb_ipcs_event_sendv / qb_ipcs_response_send / qb_ipcs_response_sendv: the message length (sendv: the total of all iovec lengths) is compared with the channel max_msg_size before the transport send; too big returns -EMSGSIZE without sending',
     'R2': 'qb_ipcc_send / sendv / sendv_recv: unless fc_get is not installed, fc_get is consulted and 0 < res <= fc_enable_max returns -EAGAIN before any transport send',
     'R3': 'shm wake-up bytes: client sends exactly one byte (retrying -EAGAIN) after an accepted request; server notifies exactly on accepted events; client consumes one byte per received event; server consumes as many bytes as requests it processed, after processing, into a buffer as large as the per-dispatch cap',
     'R4': 'deferred notifications: -EAGAIN increments outstanding_notifiers and enables POLLOUT; the counter is decreased only by a positive byte count and POLLOUT is dropped only at 0',
@@ -17,7 +17,7 @@ RULES = {
     'R6': 'both transports fill every slot of qb_ipcs_funcs / qb_ipcc_funcs that is called without a NULL test; peek and reclaim are both set or both unset',
     'R7': 'qb_ipcc_fd_get returns the event socket for socket transport and the setup socket otherwise; the server writes notification bytes to c->setup only under needs_sock_for_poll',
 }
-FLOORS = {'R1': 6, 'R2': 6, 'R3': 12, 'R4': 4, 'R5': 4, 'R6': 6, 'R7': 4}
+FLOORS = {'R1': 12, 'R2': 6, 'R3': 12, 'R4': 4, 'R5': 4, 'R6': 6, 'R7': 4}
 
 EMSGSIZE, EAGAIN = -90, -11
 
@@ -36,21 +36,89 @@ def _sends(f, rec):
     return [ev for ev in f.events('CALL') if ev.callee in ('%s::send' % rec, '%s::sendv' % rec)]
 
 
+def _sum_fits_helper(prog, name):
+    """is `name`(iov, n, max) a function that returns non-zero only if iov[0..n-1].iov_len add up to at most max?
+    total starts at 0; the loop runs i = 0 .. n-1; an element is added only where iov[i].iov_len <= max - total was seen; a
+    non-zero constant is returned only behind the loop's exit condition"""
+    if not prog.has_fn(name):
+        return False
+    h = prog.fn(name)
+    if len(h.params) != 3:
+        return False
+    iovp, np_, maxp = (q['n'] for q in h.params)
+    acc = [ev for ev in h.events('STORE') if ev.d['op'] == '+=' and field_is(ev.rhs, 'iov_len')]
+    if len(acc) != 1 or unwrap(acc[0].lhs).get('k') != 'var':
+        return False
+    tot = unwrap(acc[0].lhs)['n']
+    ixs = [estr(n['i']) for n in walk(acc[0].rhs) if n.get('k') == 'idx' and estr(unwrap(n['b'])) == iovp]
+    if not ixs:
+        return False
+    ix = ixs[0]
+    elem = estr(unwrap(acc[0].rhs))
+    gl = [a for (a, _e) in h.guards_live(acc[0])]
+    in_loop = any(a.ls == ix and a.op == '<' and a.rs == np_ for a in gl)
+    room = any(a.ls == elem and a.op == '<=' and a.rs in ('(%s - %s)' % (maxp, tot),) for a in gl)
+    inits = [ev for ev in h.events() if (ev.kind == 'STORE' and estr(ev.lhs) == ix and ev.d['op'] == '=') or (ev.kind == 'DECL' and ev.d['var'] == ix and 'init' in ev.d)]
+    zero_i = bool(inits) and all(cval(unwrap(ev.rhs if ev.kind == 'STORE' else ev.d['init'])) == 0 for ev in inits)
+    tin = [ev for ev in h.events() if (ev.kind == 'STORE' and estr(ev.lhs) == tot and ev.d['op'] == '=') or (ev.kind == 'DECL' and ev.d['var'] == tot)]
+    zero_t = bool(tin) and all(cval(unwrap(ev.rhs if ev.kind == 'STORE' else ev.d.get('init') or {})) == 0 for ev in tin)
+    steps = [ev for ev in h.events('STORE') if estr(ev.lhs) == ix and ev.d['op'] != '=']
+    step1 = bool(steps) and all(ev.d['op'] == '++' for ev in steps)
+    yes = [ev for ev in h.returns() if cval(unwrap(ev.e)) not in (0, None)]
+    unknown = [ev for ev in h.returns() if cval(unwrap(ev.e)) is None]
+
+    def done(a, fb):
+        return a.ls == ix and a.op == '>=' and a.rs == np_
+    return bool(in_loop and room and zero_i and zero_t and step1 and yes and not unknown and all(h.uncut_path(ev, done) is None for ev in yes))
+
+
 def r1(ctx):
     prog = ctx.prog
     for (fname, rec, chan, lenp) in (('qb_ipcc_send', 'qb_ipcc_funcs', 'request', 2), ('qb_ipcc_sendv', 'qb_ipcc_funcs', 'request', None),
-                                     ('qb_ipcs_event_send', 'qb_ipcs_funcs', 'event', 2)):
+                                     ('qb_ipcs_event_send', 'qb_ipcs_funcs', 'event', 2), ('qb_ipcs_response_send', 'qb_ipcs_funcs', 'response', 2),
+                                     ('qb_ipcs_response_sendv', 'qb_ipcs_funcs', 'response', None), ('qb_ipcs_event_sendv', 'qb_ipcs_funcs', 'event', None)):
         f = prog.fn(fname)
         sends = _sends(f, rec)
         if len(sends) != 1:
             raise AnalysisBroken('%s: transport send sites = %d' % (fname, len(sends)))
+        helper = None
+        if lenp is None:
+            # a checked "do these iovecs add up to at most max" helper in front of the send
+            for ev in f.events('CALL'):
+                if ev.callee and prog.has_fn(ev.callee) and len(ev.args) == 3 and estr(unwrap(ev.args[0])) == f.params[1]['n'] and \
+                        estr(unwrap(ev.args[1])) == f.params[2]['n'] and field_is(ev.args[2], 'max_msg_size') and chan in estr(ev.args[2]):
+                    if _sum_fits_helper(prog, ev.callee):
+                        helper = ev.callee
+        if helper is not None:
+            def fits_h(a, fb, helper=helper, chan=chan):
+                l = unwrap(a.l)
+                return a.op == '!=' and a.rc == 0 and callee_of(l) == helper and chan in estr(l['args'][2])
+            path = f.uncut_path(sends[0], fits_h)
+            ctx.check('R1', '%s:size-gate' % fname, path is None, sends[0], 'the transport send is cut by %s(iov, iov_len, %s.max_msg_size) (a verified sum-fits test)' % (helper, chan),
+                      'a message larger than the negotiated maximum can reach the transport send')
+            ok = False
+            for b in f.blocks.values():
+                if b.cond is None:
+                    continue
+                for (t, lab) in b.succs:
+                    if lab in (True, False) and any(a.op == '==' and a.rc == 0 and callee_of(unwrap(a.l)) == helper for a in atoms_of(b.cond, lab)):
+                        rets, _e, _n = f.search(('edge', b.id, t), goal=lambda ev: ev.kind == 'RETURN')
+                        hits, _e2, _n2 = f.search(('edge', b.id, t), goal=lambda ev: ev is sends[0])
+                        ok = bool(rets) and all(cval(unwrap(ev.e)) == EMSGSIZE for (ev, _p) in rets) and not hits
+            ctx.check('R1', '%s:too-big-returns-EMSGSIZE' % fname, ok, f, 'too big returns -EMSGSIZE and sends nothing', 'the too-big edge does not return -EMSGSIZE')
+            continue
         if lenp is not None:
             lv = f.params[lenp]['n']
         else:
             # sendv: the accumulated total
             acc = [ev for ev in f.events('STORE') if ev.d['op'] == '+=' and field_is(ev.rhs, 'iov_len')]
+            if len(acc) == 0:
+                ctx.check('R1', '%s:size-gate' % fname, False, sends[0], '',
+                          '%s hands its iovecs to the transport without adding their lengths up: a message larger than the negotiated maximum is '
+                          'accepted (the client\'s receive buffer is max_msg_size bytes: it gets -ENOBUFS / -EMSGSIZE for ever and every message behind it is stuck)' % fname)
+                continue
             if len(acc) != 1:
-                raise AnalysisBroken('qb_ipcc_sendv: iovec length accumulation not found')
+                raise AnalysisBroken('%s: iovec length accumulation not understood' % fname)
             lv = estr(acc[0].lhs)
             # the loop covers every element: i from 0 while i < iov_len
             ixs = [estr(n['i']) for n in walk(acc[0].rhs) if n.get('k') == 'idx']
@@ -60,7 +128,7 @@ def r1(ctx):
                 ok = any(a.ls == ixs[0] and a.op == '<' and a.rs == f.params[2]['n'] for a in gl)
                 inits = [ev for ev in f.events('STORE') if estr(ev.lhs) == ixs[0] and ev.d['op'] == '=']
                 ok = ok and bool(inits) and all(cval(unwrap(ev.rhs)) == 0 for ev in inits)
-            ctx.check('R1', 'qb_ipcc_sendv:total-covers-all-iovecs', ok, acc[0], 'the total adds iov_len of elements 0..iov_len-1',
+            ctx.check('R1', '%s:total-covers-all-iovecs' % fname, ok, acc[0], 'the total adds iov_len of elements 0..iov_len-1',
                       'the size total does not cover every iovec element: an oversized message passes the size gate')
 
         def fits(a, fb, lv=lv, chan=chan):
